@@ -94,6 +94,30 @@ func init() {
 		}
 		return "ok"
 	})
+	// wire flood <src> <dst1> <dst2> <count> <tag>: <count> small well-formed requests, alternately to two listeners, each
+	// routed (Route header) to a host name nobody has seen before: <tag>-<i>.invalid
+	vReg("wire flood", func(a []string) string {
+		c, err := wireUDP(unhx(a[0]))
+		if err != nil {
+			return "bind-error"
+		}
+		d1, _ := net.ResolveUDPAddr("udp", unhx(a[1]))
+		d2, _ := net.ResolveUDPAddr("udp", unhx(a[2]))
+		n, _ := strconv.Atoi(a[3])
+		src := unhx(a[0])
+		for i := 0; i < n; i++ {
+			m := fmt.Sprintf("MESSAGE sip:x@far.example.org SIP/2.0\r\nVia: SIP/2.0/UDP %s;branch=z9hG4bKfl%s%d\r\nRoute: <sip:%s-%d.invalid:5070;lr>\r\nFrom: <sip:p@ua.test>;tag=1\r\nTo: <sip:x@far.example.org>\r\nCall-ID: fl-%s-%d\r\nCSeq: 1 MESSAGE\r\nContent-Length: 0\r\n\r\n", src, a[4], i, a[4], i, a[4], i)
+			d := d1
+			if i%2 == 1 {
+				d = d2
+			}
+			c.WriteToUDP([]byte(m), d)
+			if i%64 == 63 {
+				time.Sleep(300 * time.Microsecond)
+			}
+		}
+		return "ok"
+	})
 	// wire recv <addr> <timeout ms> [msg=<hex reference>]  -> n=1 U <addr> <hex>   (same shape as pipe raw)
 	vReg("wire recv", func(a []string) string {
 		addr := unhx(a[0])
